@@ -90,6 +90,13 @@ def _bounds_margin(box, lists: Dict[str, Any]) -> float:
     return m
 
 
+def _tm(maximize: bool, s: float, t: float) -> float:
+    """See matching.threshold_margin: decisions against a threshold of exactly 0 that are structurally exact."""
+    if t == 0.0 and (not maximize or s == 0.0):
+        return float("inf")
+    return abs(s - t)
+
+
 def scenario_margin(scn: Any) -> float:
     """Smallest distance of any decision to its boundary over the whole scenario (conservative: every configured
     bound / threshold against every object / candidate pair, all matching modes, candidate-score ties)."""
@@ -136,17 +143,17 @@ def scenario_margin(scn: Any) -> float:
                 cd = G.center_distance(be, bg)
                 cds.append(cd)
                 for t in thr_cd:
-                    m = min(m, abs(cd - t))
+                    m = min(m, _tm(False, cd, t))
                 if True:
                     pd, amb = G.plane_distance(be, bg, None)
                     m = min(m, amb)
                     for t in thr_pd + pf_thr:
-                        m = min(m, abs(pd - t))
+                        m = min(m, _tm(False, pd, t))
                     i2, i3 = G.iou_bev(be, bg), G.iou_3d(be, bg)
                     for t in thr_i2:
-                        m = min(m, abs(i2 - t))
+                        m = min(m, _tm(True, i2, t))
                     for t in thr_i3:
-                        m = min(m, abs(i3 - t))
+                        m = min(m, _tm(True, i3, t))
         cds.sort()
         for a, b in zip(cds, cds[1:]):
             m = min(m, b - a)
